@@ -267,3 +267,114 @@ def rule_cachekey(ctx, prop, rule, modules):
                               f.qualname, norm_src(D), norm_src(K),
                               norm_src(V)), '%s:%d' % (rel, n.lineno))
     return rr
+
+
+def slot_memo_sites(ctx, f):
+    """`if 'k' not in P: P['k'] = V` where P is a parameter of f: a memo slot
+    on an object that outlives the call.  Yields (if node, P, key, V, outside)
+    where `outside` lists what V depends on besides P itself (data and control
+    dependence through the locals of f)."""
+    from ..model import own_nodes, norm_src
+    from ..util import assign_pairs
+    params = set(f.all_params)
+    loc = ctx.cg.locals_of(f)
+    pairs = assign_pairs(f)
+    # guards: assignment stmt id -> names in the tests of enclosing ifs
+    ctrl = {}
+
+    def rec(stmts, names):
+        for st in stmts:
+            ctrl[id(st)] = set(names)
+            if isinstance(st, ast.If):
+                t = {x.id for x in ast.walk(st.test) if isinstance(x, ast.Name)}
+                rec(st.body, names | t)
+                rec(st.orelse, names | t)
+            elif isinstance(st, (ast.For, ast.While, ast.With, ast.Try)):
+                for fld in ('body', 'orelse', 'finalbody'):
+                    rec(getattr(st, fld, []) or [], names)
+                for h in getattr(st, 'handlers', []) or []:
+                    rec(h.body, names)
+
+    rec(f.body, set())
+    imported = set()
+    for x in own_nodes(f):
+        if isinstance(x, (ast.Import, ast.ImportFrom)):
+            imported |= {(a.asname or a.name).split('.')[0] for a in x.names}
+        elif isinstance(x, (ast.FunctionDef, ast.ClassDef)):
+            imported.add(x.name)
+
+    def deps(e, P, seen):
+        """Names outside {P} that expression e depends on."""
+        out = set()
+        for x in ast.walk(e):
+            if not isinstance(x, ast.Name) or not isinstance(x.ctx, ast.Load):
+                continue
+            n = x.id
+            if n == P or n not in loc or n in imported:
+                continue  # the memo object itself / module-level name
+            if n in params:
+                out.add(n)
+                continue
+            if n in seen:
+                continue
+            seen.add(n)
+            defs = [(v, st) for t, v, st in pairs
+                    if isinstance(t, ast.Name) and t.id == n]
+            if not defs:
+                out.add(n)  # loop variable etc.
+                continue
+            multi = len(defs) > 1
+            for v, st in defs:
+                out |= deps(v, P, seen)
+                if multi:
+                    # which definition reaches depends on the enclosing tests
+                    for c in ctrl.get(id(st), ()):
+                        if c != P and c in loc:
+                            if c in params:
+                                out.add(c)
+                            else:
+                                out |= deps(ast.Name(id=c, ctx=ast.Load()), P,
+                                            seen)
+        return out
+
+    for n in own_nodes(f):
+        if not (isinstance(n, ast.If) and isinstance(n.test, ast.Compare)
+                and len(n.test.ops) == 1 and isinstance(
+                    n.test.ops[0], ast.NotIn)
+                and isinstance(n.test.left, ast.Constant)
+                and isinstance(n.test.comparators[0], ast.Name)
+                and n.test.comparators[0].id in params):
+            continue
+        P, key = n.test.comparators[0].id, n.test.left.value
+        for s in n.body:
+            if isinstance(s, ast.Assign) and any(
+                    isinstance(t, ast.Subscript) and isinstance(
+                        t.value, ast.Name) and t.value.id == P and isinstance(
+                        t.slice, ast.Constant) and t.slice.value == key
+                    for t in s.targets):
+                yield n, P, key, s.value, sorted(deps(s.value, P, set()))
+
+
+def rule_slotmemo(ctx, prop, rule, funcs, floor=1):
+    from ..model import norm_src
+    from ..util import key_of
+    rr = RuleResult(prop, rule, 'DEP',
+                    'a value memoised in a slot of an argument is a function '
+                    'of that argument alone', floor=floor)
+    for f in funcs:
+        for n, P, key, V, outside in slot_memo_sites(ctx, f):
+            rr.instances += 1
+            if outside:
+                rr.fail(key_of(f, 'memo slot %r of %s depends on %s' % (
+                    key, P, ','.join(outside))),
+                    '%s stores `%s` in `%s[%r]` once and reuses it on later '
+                    'calls, but the value also depends on %s: a later call '
+                    'with a different %s finds the slot filled and works with '
+                    'the value computed for the earlier one' % (
+                        f.qualname, norm_src(V)[:70], P, key,
+                        ', '.join(outside), '/'.join(outside)),
+                    file=f.module.rel, function=f.qualname, line=n.lineno)
+            else:
+                rr.ok('%s: `%s[%r]` is computed from `%s` alone' % (
+                    f.qualname, P, key, P), '%s:%d' % (f.module.rel, n.lineno))
+    return rr
